@@ -118,6 +118,9 @@ class SdRunner(ScenarioRunner):
                             sc.sd_simulation.change_equation(name=name, value=value)
                         for name, value in past.get("points", {}).items():
                             sc.sd_simulation.change_points(name=name, value=value)
+                # compute the earlier time steps from the start time upwards: resuming a session after several hundred
+                # steps would otherwise recurse through the whole history and exceed the recursion limit
+                sc.sd_simulation.freeze_history(step)
 
             # now the settings relevant for this step
             
